@@ -370,14 +370,27 @@ def violin_oracle(case):
     data = pd.DataFrame(arr, columns=[f"c{i}" for i in range(len(cols))])
     labels = [f"rows:{'odd' if nrow % 2 else 'even'}"]
     np.random.seed(nrow)
-    ok = [len(set(c[np.isfinite(c)].tolist())) >= 3 for c in cols]
+    def spread_ok(c):
+        """>= 3 distinct finite values whose variance is an ordinary float
+        (a kernel density needs the variance and its inverse: subnormal or
+        1e300-scale samples, or a spread below rounding of the mean, are
+        numerically degenerate)"""
+        f = c[np.isfinite(c)]
+        if len(set(f.tolist())) < 3:
+            return False
+        with np.errstate(all="ignore"):
+            v = float(np.var(f))
+            m = float(np.max(np.abs(f)))
+        return 1e-200 < v < 1e200 and math.sqrt(v) > 1e-7 * m
+    ok = [spread_ok(c) for c in cols]
     try:
         vl = violinplot.Violin(data)
     except Exception as e:
         if all(ok):
             raise Violation(f"Violin raised {type(e).__name__}: "
                             f"{str(e)[:200]} on {nrow} rows although every "
-                            "column has >= 3 distinct finite values")
+                            "column has >= 3 distinct finite values of "
+                            "ordinary spread")
         labels.append("degenerate-column:raised")
         return {"nt": False, "labels": labels}
     if case.get("draw", 0) == 0:
